@@ -191,6 +191,72 @@ def judge(st, c, cwd, out, code, vehicle, dirs):
         st.sample({"args": ["find", "r"] + c["toks"], "sequence": out[:160]})
 
 
+def xdev_worker(job):
+    """-xdev / -mount: a directory that is a mount point is evaluated but not descended. -prune evaluated on such a directory
+    (which the walk would not have entered anyway) must still leave its siblings and every other subtree in the walk. Trees with
+    one or two tmpfs mounts inside the sandbox; skipped (and counted) where mounting is not permitted."""
+    import subprocess
+    k, ntrees, seed = job
+    st = Stats()
+    rng = common.rng_for(seed, "C03x", k)
+    base = common.mkscratch("C03x%d" % k)
+    mounted = []
+    try:
+        for t in range(ntrees):
+            sb = os.path.join(base, "t%d" % t)
+            os.makedirs(sb)
+            nodes = gen_tree(rng, rng.choice([8, 16]))
+            treegen.build(sb, nodes)
+            dirs = [n.path for n in nodes if n.kind == "d"]
+            mps = []
+            for i in range(rng.choice([1, 1, 2])):
+                parent = rng.choice(dirs)
+                mp = parent + "/" + rng.choice(["m", "B", "mnt", "0", "zz", "a"]) + str(i)
+                os.mkdir(os.path.join(sb, mp))
+                pr = subprocess.run(["mount", "-t", "tmpfs", "-o", "size=256k", "none", os.path.join(sb, mp)], capture_output=True)
+                if pr.returncode != 0:
+                    st.inc("mount_not_permitted")
+                    os.rmdir(os.path.join(sb, mp))
+                    continue
+                mounted.append(os.path.join(sb, mp))
+                mps.append(mp)
+                os.mkdir(os.path.join(sb, mp, "inner"))
+                for nm in ("f", "inner/g"):
+                    open(os.path.join(sb, mp, nm), "w").close()
+            if not mps:
+                common.force_rmtree(sb)
+                continue
+            st.inc("trees_with_mount_points")
+            files = [n.path for n in nodes if n.kind == "f"] + ["L:" + n.path for n in nodes if n.kind == "l"]
+            cases = []
+            for i in range(10):
+                toks, shape, df, tk = gen_expr(rng, mps * 3 + dirs, files)
+                xd = rng.random() < 0.75
+                if xd:
+                    toks = toks[:1] + [rng.choice(["-xdev", "-xdev", "-mount"])] + toks[1:]
+                cases.append({"id": "x%d_%d_%d" % (k, t, i), "toks": toks, "files": [], "stratum": shape, "has_plus": False, "df": df, "tk": tk,
+                              "mode": "P", "lead": [], "xdev": xd})
+            res = common.run_find_inproc([(c["id"], ["find", "r"] + c["toks"]) for c in cases], base, sb)
+            for c in cases:
+                r = res[c["id"]]
+                if r.special or r.panic:
+                    st.violate("panic-or-hang", None, {"args": c["toks"], "what": r.special, "msg": r.panic}, {"case": c})
+                    continue
+                st.inc("runs_over_trees_with_mount_points")
+                if c["xdev"]:
+                    st.inc("runs_with_xdev")
+                judge(st, c, sb, r.out, r.code, "in-process", dirs)
+            for mp in mps:
+                subprocess.run(["umount", "-l", os.path.join(sb, mp)], capture_output=True)
+                mounted.remove(os.path.join(sb, mp))
+            common.force_rmtree(sb)
+    finally:
+        for m in reversed(mounted):
+            subprocess.run(["umount", "-l", m], capture_output=True)
+        common.force_rmtree(base)
+    return st
+
+
 def order_worker(job):
     """Follow modes: the statement's ancestor/descendant order must hold for whatever is visited (oracle-free invariant)."""
     k, ntrees, seed = job
@@ -345,6 +411,11 @@ def run(ctx):
     jobs = [(k, ntrees // nw, ctx.scale(10, 14), ctx.seed, ctx.scale(30, 80), 1) for k in range(nw)]
     ctx.pmap(worker, jobs)
     ctx.pmap(order_worker, [(k, ctx.scale(10, 1500), ctx.seed) for k in range(nw)])
+    ctx.pmap(xdev_worker, [(k, ctx.scale(3, 60), ctx.seed) for k in range(nw)])
+    if ctx.stats.c.get("mount_not_permitted") and not ctx.stats.c.get("trees_with_mount_points"):
+        ctx.stats.notes.append("mounting a tmpfs inside the sandbox is not permitted here: the -xdev workload was not run")
+    else:
+        ctx.require("runs_with_xdev", 20)
     ctx.pmap(bytes_order_worker, [(k, ctx.scale(12, 2000), ctx.seed) for k in range(nw)])
     ctx.require("non_utf8_sorted_runs", 20)
     ctx.require("follow_mode_sequences_with_link_loop", 3)
